@@ -51,9 +51,30 @@ impl Prop for C06 {
         for pl in [0usize, 1, 31, 32, 33, 55, 56, 63, 64, 65, 119, 127, 128, 129, 200] { if th || [63, 64, 65, 128, 129].contains(&pl) { v.push(case(&[("kind", "enc".into()), ("mode", "pass".into()), ("len", "13".into()), ("rk", "full".into()), ("pwlen", pl.to_string()), ("seed", rng.next().to_string())])); } }
         v.push(case(&[("kind", "golden".into()), ("which", "key".into())]));
         v.push(case(&[("kind", "golden".into()), ("which", "pass".into())]));
+        // the tool itself: files it writes over an older, longer file at the output path are still exactly the format (and decrypt back); the
+        // repository's golden files decrypt through the binary onto an older, longer output file to exactly their plaintext
+        v.extend(crate::props::clirt::cli_rt_cases("key", tier, seed ^ 0x6).into_iter().filter(|c| get(c, "stale") != "none"));
+        v.extend(crate::props::clirt::cli_rt_cases("pass", tier, seed ^ 0x66).into_iter().filter(|c| get(c, "stale") != "none"));
+        for g in ["key", "pass"] { v.push(case(&[("kind", "golden-cli".into()), ("mode", g.into()), ("seed", rng.next().to_string())])); }
         v
     }
     fn run(&self, c: &Case, m: &mut Model) -> Outcome {
+        if get(c, "kind") == "cli-rt" { return crate::props::clirt::run_cli_rt(c, m); }
+        if get(c, "kind") == "golden-cli" {
+            use crate::cli::*;
+            let mut o = Outcome::default();
+            let keym = get(c, "mode") == "key";
+            let (gf, plain) = (std::fs::read(if keym { GOLDEN_KEY } else { GOLDEN_PASS }).unwrap_or_default(), std::fs::read(GOLDEN_PLAIN).unwrap_or_default());
+            let kr = std::fs::read("/repo/src/cli/tests/keyring.txt").unwrap_or_default();
+            o.nontrivial = Some(format!("golden-cli/{}", get(c, "mode"))); o.tags.push("golden file through the binary".into()); o.validated += 1;
+            let w = World { files: vec![("g.ktl".into(), gf), ("kr.txt".into(), kr), ("out.bin".into(), vec![0x33u8; 5000])], env: vec![("KESTREL_PASSWORD".into(), if keym { "bob".into() } else { "pass123".into() })], stdin: vec![] };
+            let args = if keym { sv(&["decrypt", "g.ktl", "-t", "bob", "-o", "out.bin", "-k", "kr.txt", "--env-pass"]) } else { sv(&["password", "decrypt", "g.ktl", "-o", "out.bin", "--env-pass"]) };
+            let obs = run_kestrel(&w, &args);
+            o.impl_obs = format!("exit={:?} out={:?}B", obs.exit, obs.file("out.bin").map(|b| b.len())); o.model_obs = format!("exit 0, out = {} bytes", plain.len());
+            if obs.exit != Some(0) { o.disagreement = Some(format!("the repository's golden {} file does not decrypt through the binary with the test suite's key / password: exit {:?} {}", get(c, "mode"), obs.exit, obs.stderr.trim())); }
+            else if obs.file("out.bin") != Some(&plain) { o.oracle_fail = Some(("conforming-file-decrypts".into(), format!("the golden {} file, decrypted by the binary onto an older 5000-byte output file: the output holds {:?} bytes, the plaintext has {}", get(c, "mode"), obs.file("out.bin").map(|b| b.len()), plain.len()))); }
+            return o;
+        }
         let mut o = Outcome::default();
         let mut rng = Rng::new(get(c, "seed").parse().unwrap_or(0));
         let keym = get(c, "mode") == "key";
